@@ -1619,7 +1619,77 @@ pub fn case_union<A: Sh, B: Sh>(variant: usize, script: u64, st: &mut SStats) ->
     );
     check(&unions, na, nb, "after construction")?;
     for step in 0..6 {
-        match rng.below(5) {
+        match rng.below(6) {
+            5 => {
+                // clone_from across variants: a scratch union that is the sole owner of a fresh allocation of the
+                // *other* variant takes over one of ours (the fresh allocation must be destroyed as what it is),
+                // is then pointed back at `other`, and dropped
+                let (mut s, fresh_heap) = shadow::tracked(|| {
+                    if first {
+                        let x = Arc::new(B::gen(33));
+                        let h = x.heap_ptr() as usize;
+                        (ArcUnion::<A, B>::from_second(x), h)
+                    } else {
+                        let x = Arc::new(A::gen(33));
+                        let h = x.heap_ptr() as usize;
+                        (ArcUnion::<A, B>::from_first(x), h)
+                    }
+                });
+                shadow::tracked(|| s.clone_from(&unions[0]));
+                if first {
+                    na += 1
+                } else {
+                    nb += 1
+                }
+                check_released_p(
+                    &format!("{}: the allocation a union let go of in clone_from", what),
+                    fresh_heap,
+                    "C12,C05",
+                )?;
+                ensure!(
+                    s.is_first() == first && ArcUnion::ptr_eq(&s, &unions[0]) && s == unions[0],
+                    "C12",
+                    "union",
+                    "{}: after clone_from the union does not hold the source's variant and allocation",
+                    what
+                );
+                ensure!(
+                    Arc::count(&a) == na && Arc::count(&b) == nb,
+                    "C12,C04",
+                    "union",
+                    "{}: counts after clone_from {}/{} expected {}/{}",
+                    what,
+                    Arc::count(&a),
+                    Arc::count(&b),
+                    na,
+                    nb
+                );
+                shadow::tracked(|| s.clone_from(&other));
+                ensure!(
+                    s.is_first() != first && ArcUnion::ptr_eq(&s, &other) && s != unions[0],
+                    "C12",
+                    "union",
+                    "{}: after clone_from(other variant) the union does not hold that variant",
+                    what
+                );
+                if first {
+                    na -= 1
+                } else {
+                    nb -= 1
+                }
+                // s co-owns `other`'s allocation now
+                ensure!(
+                    Arc::count(&a) == na + (!first) as usize && Arc::count(&b) == nb + first as usize,
+                    "C12,C04",
+                    "union",
+                    "{}: counts after clone_from(other variant) {}/{}",
+                    what,
+                    Arc::count(&a),
+                    Arc::count(&b)
+                );
+                shadow::tracked(|| drop(s));
+                st.counts.bump("shapes.union.clone_from");
+            }
             0 => {
                 let c = shadow::tracked(|| unions[rng.below(unions.len())].clone());
                 unions.push(c);
